@@ -10,10 +10,8 @@
 package sched
 
 import (
-	"bytes"
 	"fmt"
 	"runtime"
-	"strconv"
 	"sync"
 	"time"
 )
@@ -42,6 +40,14 @@ type Task struct {
 	Data    interface{}    // harness data (per-task call context etc.)
 }
 
+// Gate sets the enabledness predicate of a task that is parked (typically at
+// "start"): the scheduler will not pick it while the predicate is false.
+func (t *Task) Gate(pred func() bool) {
+	t.s.mu.Lock()
+	t.enabled = pred
+	t.s.mu.Unlock()
+}
+
 // Label is where the task is parked ("" when running or done).
 func (t *Task) Label() string { return t.label }
 
@@ -52,7 +58,8 @@ func (t *Task) Done() bool { return t.st == stDone }
 type Sched struct {
 	mu       sync.Mutex
 	tasks    []*Task
-	byGID    map[int64]*Task
+	cur      *Task
+	timer    *time.Timer
 	notify   chan struct{}
 	Schedule []uint8
 	pos      int
@@ -71,7 +78,7 @@ type Sched struct {
 
 // New returns a scheduler for one case.
 func New(schedule []uint8) *Sched {
-	return &Sched{byGID: map[int64]*Task{}, notify: make(chan struct{}, 1), Schedule: schedule,
+	return &Sched{notify: make(chan struct{}, 1), Schedule: schedule,
 		MaxSteps: 20000, Watchdog: 20 * time.Second}
 }
 
@@ -83,24 +90,16 @@ func (s *Sched) Seq() int {
 	return s.seq
 }
 
-func goid() int64 {
-	var buf [40]byte
-	n := runtime.Stack(buf[:], false)
-	// "goroutine 123 ["
-	b := buf[10:n]
-	i := bytes.IndexByte(b, ' ')
-	if i < 0 {
-		return -1
-	}
-	id, _ := strconv.ParseInt(string(b[:i]), 10, 64)
-	return id
-}
-
-// Current returns the task of the calling goroutine (nil if it is not a task).
+// Current returns the running task (nil when no task runs). Exactly one task
+// runs at a time and every goroutine that calls into the harness while a task
+// runs is that task, so no goroutine identity is needed (runtime.Stack-based
+// goroutine ids cost more than the whole rest of a case).
 func (s *Sched) Current() *Task {
-	g := goid()
 	s.mu.Lock()
-	t := s.byGID[g]
+	t := s.cur
+	if t != nil && t.st != stRunning {
+		t = nil
+	}
 	s.mu.Unlock()
 	return t
 }
@@ -115,18 +114,13 @@ func (s *Sched) Go(name string, free bool, fn func()) *Task {
 	if free {
 		t.st = stRunning
 		t.Started = true
+		s.cur = t
 	} else {
 		t.st = stParked
 		t.label = "start"
 	}
 	s.mu.Unlock()
-	started := make(chan struct{})
 	go func() {
-		g := goid()
-		s.mu.Lock()
-		s.byGID[g] = t
-		s.mu.Unlock()
-		close(started)
 		defer func() {
 			if p := recover(); p != nil {
 				t.Panic = p
@@ -136,7 +130,9 @@ func (s *Sched) Go(name string, free bool, fn func()) *Task {
 			s.mu.Lock()
 			t.st = stDone
 			t.label = ""
-			delete(s.byGID, g)
+			if s.cur == t {
+				s.cur = nil
+			}
 			s.mu.Unlock()
 			s.wake()
 		}()
@@ -145,7 +141,6 @@ func (s *Sched) Go(name string, free bool, fn func()) *Task {
 		}
 		fn()
 	}()
-	<-started
 	return t
 }
 
@@ -169,6 +164,9 @@ func (s *Sched) Yield(label string, enabled func() bool) {
 	t.label = label
 	t.enabled = enabled
 	t.Visits[label]++
+	if s.cur == t {
+		s.cur = nil
+	}
 	s.mu.Unlock()
 	s.wake()
 	<-t.resume
@@ -198,7 +196,7 @@ func (e *ErrSteps) Error() string { return fmt.Sprintf("step bound %d exhausted"
 
 // settle waits until no task is running.
 func (s *Sched) settle(who *Task, from string) error {
-	deadline := time.Now().Add(s.Watchdog)
+	armed := false
 	for {
 		s.mu.Lock()
 		busy := false
@@ -210,15 +208,23 @@ func (s *Sched) settle(who *Task, from string) error {
 		}
 		s.mu.Unlock()
 		if !busy {
+			if armed {
+				s.timer.Stop()
+			}
 			return nil
 		}
-		left := time.Until(deadline)
-		if left <= 0 {
-			return &ErrWatchdog{Task: who, Label: from}
+		if !armed {
+			if s.timer == nil {
+				s.timer = time.NewTimer(s.Watchdog)
+			} else {
+				s.timer.Reset(s.Watchdog)
+			}
+			armed = true
 		}
 		select {
 		case <-s.notify:
-		case <-time.After(left):
+		case <-s.timer.C:
+			return &ErrWatchdog{Task: who, Label: from}
 		}
 	}
 }
@@ -327,6 +333,7 @@ func (s *Sched) resumeTask(t *Task) error {
 	t.label = ""
 	t.enabled = nil
 	t.Started = true
+	s.cur = t
 	s.Steps++
 	step := s.Steps
 	s.mu.Unlock()
@@ -364,6 +371,20 @@ func (s *Sched) RunTo(t *Task, labels ...string) (reached bool, err error) {
 		}
 	}
 	return false, &ErrSteps{s.Steps}
+}
+
+// StepTask resumes task t once if it is parked and enabled.
+func (s *Sched) StepTask(t *Task) (bool, error) {
+	if err := s.Settle(); err != nil {
+		return false, err
+	}
+	if t.st != stParked || (t.enabled != nil && !t.enabled()) {
+		return false, nil
+	}
+	if s.Steps >= s.MaxSteps {
+		return false, &ErrSteps{s.Steps}
+	}
+	return true, s.resumeTask(t)
 }
 
 // Run takes decisions until no task is enabled.
